@@ -148,6 +148,19 @@ func runC03(r *Run, p *Prog) {
 				okNil := hasFactRe(T.FactsAt(d.Call.Block()), `^NE\(nil,param:\w+\.In\.`+pf.Name()+`\)$`)
 				r.Ob("P2", shortName(f), "the handler decodes exactly the raw request parameters into its own value (nil-guarded)", d.Call.Pos(), okData && okTarget && okNil,
 					fmt.Sprintf("data=%s (raw request parameters: %v), target is the caller's value: %v, nil-guarded: %v", dt, okData, okTarget, okNil))
+				// ... and it reports success only for what the decoder did: every return is the decoder's verdict or an
+				// error of its own (a shortcut for "empty" parameters leaves the caller's value as it was)
+				if res := f.Signature.Results(); res.Len() == 1 && isErrorType(res.At(0).Type()) {
+					for _, rv := range returnedValues(f, 0) {
+						vt := strip(T.T(rv.Val))
+						okRet := rv.Val == ssa.Value(d.Call) || strings.HasPrefix(vt, "call:fmt.Errorf(") || strings.HasPrefix(vt, "call:errors.New(") || strings.Contains(vt, "global:")
+						if !okRet && vt == "nil" {
+							okRet = hasFact(T.FactsAt(rv.Ret.Block()), "EQ", T.T(d.Call), "nil")
+						}
+						r.Ob("P2", shortName(f), "success is reported only after the parameters were decoded", rv.Ret.Pos(), okRet,
+							"returns "+vt+" without the decoder having run: the handler's value keeps whatever it held (null, or the previous call's data) although the client passed an object")
+					}
+				}
 			}
 		}
 		if n == 0 {
